@@ -536,6 +536,10 @@ def odd_label_variants(r, df):
 LONG_COMMON = ["", "", "x", "f", "x + f", "z:h", "center(x)", "g", "scale(z)"]
 
 
+FRAME_FREE = ["I(yy) ~ I(xx)", "{yy} ~ 1 + {xx}", "I(yy) ~ 1", "I(yy) ~ 0 + I(xx) + I(xx * 2)",
+              "I(yy) ~ center(xx)", "I(yy) ~ scale(xx) + I(xx ** 2)"]
+
+
 def long_frame(r, n):
     """a generated frame tiled to `n` rows, numerics jittered by exactly representable amounts"""
     small = designs.gen_frame(r, n=r.randrange(16, 25)).reset_index(drop=True)
@@ -682,7 +686,7 @@ def explore(tier, seed, res=None, replay=None):
     n_cases = 300 if tier == "quick" else 3500
     cases = []
     long_ks = list(range(3 if tier == "quick" else 12))
-    if replay is not None and replay.get("very_long"):
+    if replay is not None and (replay.get("very_long") or replay.get("frame_free")):
         long_ks = []
     elif replay is not None and "long_rows" in replay:
         long_ks = [replay.get("seed_path", 0)]
@@ -854,6 +858,51 @@ def explore(tier, seed, res=None, replay=None):
         res.traces += 1
         if len(res.samples) < 5:
             res.samples.append({"formula": formula, "variants": len(meta)})
+    # formulas that take NO variable from the frame (everything comes from the caller's namespace):
+    # every column of the frame is an unused one; removing some, or all of them (a frame with rows
+    # and no column), changes nothing (tenth seeded wave, C08_P: `DataFrame.empty` is also true for
+    # a frame that has rows but no column)
+    free_ks = [] if replay is not None and not replay.get("frame_free") else (
+        [replay["seed_path"]] if replay is not None else range(6 if tier == "quick" else 60))
+    for k in free_ks:
+        rf = rng_for(seed, "c08", "frame-free", k)
+        n = rf.randrange(4, 15)
+        names = {"yy": np.asarray([rf.randrange(-8, 9) / 2 for _ in range(n)]),
+                 "xx": np.asarray([float(rf.randrange(-6, 7)) for _ in range(n)])}
+        formula = FRAME_FREE[k % len(FRAME_FREE)]
+        full = pd.DataFrame({"u1": [rf.randrange(0, 9) for _ in range(n)], "u2": ["s"] * n,
+                             "u3": [np.nan if i % 3 == 0 else 1.5 for i in range(n)]})
+        case = {"formula": formula, "seed_path": k, "frame_free": True, "rows": n}
+        res.evaluations += 1
+        base = snapshot(formula, full, extra_names=names)
+        if "err" in base:
+            res.count("impl_error (frame-free formula):" + base["err"])
+            continue
+        res.count("frame-free formulas (every column of the frame is unused)")
+        relabelled = full[[]].copy()
+        relabelled.index = [f"r{i}" for i in range(n)]
+        pairs, meta = [], []
+        for tag, frame in (("one unused column left", full[["u2"]]), ("no column left", full[[]]),
+                           ("no column left, string row labels", relabelled),
+                           ("only the all-but-missing column left", full[["u3"]])):
+            other = snapshot(formula, frame, extra_names=names)
+            if "err" in other:
+                res.failures.append({"case": dict(case, variant=tag), "impl": strip_dm(other),
+                                     "expected": "unchanged", "finding": None,
+                                     "why": f"the frame with {tag} raises {other['err']} although the "
+                                            "formula uses no column and the full frame is accepted"})
+                continue
+            for part in ("response", "common", "group"):
+                if base["mats"][part] is None and other["mats"][part] is None:
+                    continue
+                pairs.append({"rule": "same", "base": base["mats"][part], "other": other["mats"][part],
+                              "sigma": [], "meta_base": base["meta"], "meta_other": other["meta"],
+                              "params_base": base["params"], "params_other": other["params"]})
+                meta.append((tag, "same", part))
+        res.nontrivial.add((formula, "frame-free", k))
+        reqs.append({"op": "c08_spec", "pairs": pairs})
+        owners.append((case, meta))
+        res.traces += 1
     # long frames with group-specific terms (all rows go through the same relation)
     for k in long_ks:
         case, pairs, meta, failures, err = long_case(seed, k, tier)
